@@ -232,6 +232,11 @@ def face_algebra(ctx, g, dims):
     la, lb = comps(La), comps(Lb)
     chk('and', La & Lb, lambda a, i: la[a][i] & lb[a][i])
     chk('or', La | Lb, lambda a, i: la[a][i] | lb[a][i])
+    # reflected power and logical operators with a scalar on the other side
+    chk('rpow_scalar', 2 ** A, lambda a, i: 2 ** ca[a][i])
+    sc = s > 0
+    chk('and_scalar', La & sc, lambda a, i: symnp._b(la[a][i]) & symnp._b(sc) if ctx.sym else bool(la[a][i]) and bool(sc))
+    chk('or_scalar', La | sc, lambda a, i: symnp._b(la[a][i]) | symnp._b(sc) if ctx.sym else bool(la[a][i]) or bool(sc))
     Fs = [A, B] + [scen.facevar(ctx, m, 'W%d' % k) for k in range(6)]
     cs = [comps(F) for F in Fs]
     for n in range(1, 9):
